@@ -449,6 +449,45 @@ def printf_hostile_text(rng):
     return b''.join(l + eol for _, l in L), nv, nd, kinds
 
 
+def fixed_stream():
+    """deterministic cases aimed at branches the random stream rarely reaches (ROUND 3 coverage audit): every prefix of a small
+    text and of two small binary files (EOF at each structural position), and single targeted lines.
+    returns list of (family, bytes, nvars, ncons)"""
+    out = []
+    text = (b'hi\n\nOptions\n5\n1\n3\n0\n1\n1\n1\n1\n1e-6\n0.5\n1.5\nobjno 0 0\nsuffix 0 1 4 8 2\nfoo\na b\nc d\n0 3\n'
+            b'suffix 4 1 4 0 0\nbar\n0 2.5\n')
+    for k in range(len(text) + 1):
+        out.append(('sweep-text', text[:k], 1, 1))
+    ob = b'Options' + b''.join(struct.pack('<i', x) for x in [5, 1, 3, 0, 1, 1, 1, 1]) + struct.pack('<d', 1e-6)
+    suf1 = b'\nSuffix\n' + struct.pack('<iiii', 0, 1, 4, 4) + b'foo\0' + b'a b\0' + struct.pack('<ii', 0, 3)
+    suf2 = b'\nSuffix\n' + struct.pack('<iiii', 4, 1, 4, 0) + b'bar\0' + struct.pack('<id', 0, 2.5)
+    head = rec(b'binary') + rec(b'hi  ') + rec(b'    ') + rec(b'\b\bx ') + rec(b'') + rec(ob) + rec(struct.pack('<d', 0.5)) + rec(struct.pack('<d', 1.5))
+    b1 = head + rec(struct.pack('<ii', 0, 7)) + rec(suf1) + rec(suf2)
+    for k in range(len(b1) + 1):
+        out.append(('sweep-bin', b1[:k], 1, 1))
+    b2 = head + rec(struct.pack('<i', 3)) + struct.pack('<II', 1, 2) + b'xy'          # objno record with one integer, then trailing data
+    for k in range(len(head), len(b2) + 1):
+        out.append(('sweep-bin-objno4', b2[:k], 1, 1))
+    for nopts in (2, 12, -1):
+        ob2 = b'Options' + b''.join(struct.pack('<i', x) for x in [nopts, 1, 1, 0, 1, 1, 1, 1])
+        out.append(('targeted:binary-nopts-%d' % nopts, rec(b'binary') + rec(b'm') + rec(b'') + rec(ob2) + rec(struct.pack('<d', 0.5)) + rec(struct.pack('<d', 1.5)), 1, 1))
+    base = b'm\n\n'
+    for name, body in [
+        ('solve-code-below-int', b'objno 0 -1e30\n'),
+        ('header-stray-cr', b'objno 0 0\nsuffix 0 1 4\rX 0 0\nfoo\n0 1\n'),
+        ('header-crlf', b'objno 0 0\nsuffix 0 1 4 0 0\r\nfoo\r\n0 1\r\n'),
+        ('name-cr-not-lf', b'objno 0 0\nsuffix 0 0 4 0 0\nfoo\rX\n'),
+        ('table-last-line-cr-only', b'objno 0 0\nsuffix 0 0 4 5 2\nfoo\nab\n\r\n'),
+        ('table-last-line-nul', b'objno 0 0\nsuffix 0 0 4 9 2\nfoo\nab\n\0abc\n'),
+        ('table-last-line-too-long', b'objno 0 0\nsuffix 0 0 4 5 2\nfoo\nab\ncdefgh\n'),
+        ('bad-vbtol-line', b'Options\n5\n1\n3\n0\n0\n0\n0\n0\nxyz\n'),
+        ('only-O', b'O'),
+        ('O-not-options', b'Other line\nobjno 0 0\n'),
+    ]:
+        out.append(('targeted:' + name, base + body, 0, 0))
+    return out
+
+
 def rand_policy(rng):
     def act():
         r = rng.random()
